@@ -249,7 +249,7 @@ def r1(R, m):
             ok = False
             fn = om.enclosing_function(n)
             source = nows(src(obj)) + ".ubis"
-            if how == "rebind" and isinstance(n, ast.Assign):
+            if how == "rebind" and isinstance(n, ast.Assign) and not is_empty_list(n.value):
                 ok = elementwise_map(fn if fn is not None else om.tree, n.value, source)
                 R.shape(ok is not None, "C08.R1", rel_, om.qualname(fn) if fn is not None else "<module>",
                         "how the list assigned by '%s' is built (comprehension, map(), or an append loop over %s)" % (src(n)[:60], source))
